@@ -18,9 +18,11 @@
 //
 // Events (one transition each): set a|b|c to "1"|"2", read a|r1|r2|r3, delete
 // a|b|r1, assign the rule field r1 directly (user override), Invalidate r1|r3,
-// SetDeps(r2,"c"), Copy (continue on the copy / continue on the original; the
-// other record is kept and probed at the end; the copy gets r3 re-attached and
-// its own observer because documented Copy copies neither).
+// SetDeps(r2,"c"), Set_readonly (afterwards only reads, assignments and deletes
+// - which must be refused - and Copy are offered), Copy (continue on the copy /
+// continue on the original; the other record is kept and probed at the end;
+// the copy gets r3 re-attached and its own observer because documented Copy
+// copies neither).
 //
 // Successor of a state = replay its event path on a fresh record + one event
 // (records are mutable); states are deduplicated on the reference model state.
@@ -33,13 +35,21 @@
 // A directly assigned rule field keeps the assigned value until it is
 // invalidated (Rules.md: rules run for fields the record does not contain; a
 // changed dependency invalidates the field).
-// Observers: for every change, exactly one notification for the changed member
-// and one for each rule field that this change invalidated (it had a value and a
-// tracked dependency, direct or transitive, on the changed member), nothing
-// else, and nothing for an assignment of an equal value.
+// Observers: a change must produce a notification for the changed member and
+// for every rule field that held a value and was invalidated by the change;
+// it may additionally report rule fields with a tracked dependency path from
+// the changed member that hold no value or are already invalid (the property
+// does not say); nothing else, nothing twice, and nothing for an assignment of
+// an equal value.
 // The bookkeeping of which fields currently hold a value / are invalid / which
 // dependencies have been tracked is a plain-Go restatement of the documented
 // algorithm (Rules.md) in `model`.
+//
+// Candidate defect found by this check (class classROStale, see below): on a
+// read-only record a rule field whose stored value had been invalidated is
+// evaluated correctly once and afterwards the stale stored value is returned.
+// Paths that touch such a state are reported under that class, after the
+// search, and are not explored further.
 package main
 
 import (
@@ -892,7 +902,7 @@ func main() {
 			"a directly assigned rule field keeps the assigned value until it is invalidated (Rules.md); PreSet (documented to bypass rules) is not in the alphabet",
 			"Invalidate is only applied to rule fields; Copy re-attaches r3 and a new observer on the copy (documented: Copy copies neither observers nor attached rules)",
 			"read-only records: assignments and deletes must be refused, rules still give the current value on every read (object.Set_readonly documentation); Invalidate/SetDeps are not applied to read-only records",
-			"observer expectation: exactly one notification for the changed member and for each rule field that held a value and has a tracked dependency on it",
+			"observer expectation: one notification for the changed member and for each rule field that held a value and was invalidated by the change; rule fields on a tracked dependency path that hold no value or are already invalid may also be reported; nothing else, nothing twice",
 			"verdict is for the enumerated events, values and depth only",
 		},
 		QuickBudget: 70, ThoroughBudget: 700,
